@@ -997,7 +997,11 @@ func (r *replicateChannelHandler) AddCollection(taskID string, sourceInfo *model
 					return
 				}
 
-				r.innerHandleReplicateMsg(false, api.GetReplicateMsg(sourceInfo.PChannel, targetInfo.CollectionName, collectionID, msgPack, taskID))
+				if !r.tryHandleReplicateMsg(false, api.GetReplicateMsg(sourceInfo.PChannel, targetInfo.CollectionName, collectionID, msgPack, taskID)) {
+					// the failing pack must not be skipped: the task is paused through the error event and re-reads it
+					log.Warn("stop reading the channel after a pack that can not be processed", zap.String("channel_name", sourceInfo.VChannel))
+					return
+				}
 			}
 		}
 	}()
@@ -1267,14 +1271,20 @@ func (r *replicateChannelHandler) getTSManagerChannelKey(channelName string) str
 }
 
 func (r *replicateChannelHandler) innerHandleReplicateMsg(forward bool, msg *api.ReplicateMsg) {
+	r.tryHandleReplicateMsg(forward, msg)
+}
+
+// tryHandleReplicateMsg reports false when the pack could not be processed (the error has been reported
+// through the event channel): the caller must not go on with the packs that follow it.
+func (r *replicateChannelHandler) tryHandleReplicateMsg(forward bool, msg *api.ReplicateMsg) bool {
 	msgPack := msg.MsgPack
 	p := r.handlePack(forward, msgPack, msg.TaskID)
 	if p == nil {
 		// handlePack has reported the error through the event channel and produced no pack
-		return
+		return false
 	}
 	if p == api.EmptyMsgPack {
-		return
+		return true
 	}
 	p.CollectionID = msg.CollectionID
 	p.CollectionName = msg.CollectionName
@@ -1282,6 +1292,7 @@ func (r *replicateChannelHandler) innerHandleReplicateMsg(forward bool, msg *api
 	p.TaskID = msg.TaskID
 	util.VerifPoint("pack.computed", msg.PChannelName+"/"+msg.CollectionName)
 	GetTSManager().SendTargetMsg(r.getTSManagerChannelKey(r.targetPChannel), p)
+	return true
 }
 
 func (r *replicateChannelHandler) collectionSourceSeekPosition(
@@ -1573,7 +1584,7 @@ func (r *replicateChannelHandler) handlePack(forward bool, pack *msgstream.MsgPa
 		}
 		info, err := r.getCollectionTargetInfo(sourceCollectionID)
 		if err != nil {
-			r.sendErrEvent(err)
+			r.sendErrEvent(taskID, err)
 			log.Warn("fail to get collection info", zap.Int64("collection_id", sourceCollectionID), zap.Error(err))
 			return nil
 		}
@@ -1712,7 +1723,7 @@ func (r *replicateChannelHandler) handlePack(forward bool, pack *msgstream.MsgPa
 			}
 		}
 		if err != nil {
-			r.sendErrEvent(err)
+			r.sendErrEvent(taskID, err)
 			log.Warn("fail to process the msg info", zap.Any("msg", msg.Type()), zap.Error(err))
 			return nil
 		}
@@ -1787,7 +1798,7 @@ func (r *replicateChannelHandler) handlePack(forward bool, pack *msgstream.MsgPa
 	generateTS, ok := GetTSManager().UnsafeGetMaxTS(tsManagerChannelKey)
 	if !ok {
 		log.Warn("not found the max ts", zap.String("channel", r.targetPChannel))
-		r.sendErrEvent(fmt.Errorf("not found the max ts"))
+		r.sendErrEvent(taskID, fmt.Errorf("not found the max ts"))
 		return nil
 	}
 	GetTSManager().UnsafeUpdatePackTS(tsManagerChannelKey, newPack.BeginTs, func(newTS uint64) (uint64, bool) {
@@ -1965,10 +1976,11 @@ func copyMsgPositions(positions []*msgpb.MsgPosition) []*msgpb.MsgPosition {
 	return newPositions
 }
 
-func (r *replicateChannelHandler) sendErrEvent(err error) {
+func (r *replicateChannelHandler) sendErrEvent(taskID string, err error) {
 	r.apiEventChan <- &api.ReplicateAPIEvent{
 		EventType: api.ReplicateError,
 		Error:     err,
+		TaskID:    taskID,
 	}
 }
 
